@@ -8,7 +8,7 @@ PERSISTENT_EVENTS = ("PaymentSent", "PaymentFailed", "PaymentPathSuccessful", "P
                      "PaymentForwarded", "ChannelClosed", "PaymentClaimable", "HTLCHandlingFailed")
 
 
-FAMILIES = ("collide", "claimed", "random")
+FAMILIES = ("collide", "claimed", "blocked", "random")
 
 
 def gen_scenario(rng, crash, family=None):
@@ -18,11 +18,13 @@ def gen_scenario(rng, crash, family=None):
     relaxed = rng.chance(1, 4)
     if family is None:
         f = rng.below(10)
-        family = "collide" if f < 3 else "claimed" if f < 5 else "random"
+        family = "collide" if f < 3 else "claimed" if f < 5 else "blocked" if f < 7 else "random"
     if family == "collide":
         return ("relaxed" if relaxed else "strict"), gen_collide(rng, crash)
     if family == "claimed":
         return ("relaxed" if relaxed else "strict"), gen_closed_claim(rng, crash)
+    if family == "blocked":
+        return ("relaxed" if relaxed else "strict"), gen_blocked_snapshot(rng, crash)
     ops = []
     flavour = rng.below(4)
     npay = rng.range(1, 3)
@@ -145,6 +147,38 @@ def gen_closed_claim(rng, crash):
     return ops
 
 
+def gen_blocked_snapshot(rng, crash):
+    """Manager snapshots taken while monitor updates are HELD BACK in a channel (blocked_monitor_updates non-empty: the
+    restarting node has not handled its PaymentSent / PaymentForwarded yet), with more traffic queueing behind the held
+    update in both directions; then the application handles its events, the held updates are released and land in the
+    monitor (synchronously, or asynchronously with the completion still outstanding), a little more happens. Together
+    with the manager lags of the enumeration this gives every admissible lead of the monitor over such a snapshot: none
+    of the held updates, some, exactly all of them, or more."""
+    peer = rng.choice([0, 2, 3]) if crash == 1 else 1
+    ops = []
+    # the payment whose claim makes the blocker: sent by the restarting node, or forwarded by it (hub only)
+    if crash == 1 and rng.chance(1, 2):
+        src = rng.choice([y for y in (0, 2, 3) if y != peer])
+        ops.append("send %d %d %d" % (src, peer, rng.choice([1000000, 3000000])))
+    else:
+        ops.append("send %d %d %d" % (crash, peer, rng.choice([1000000, 3000000])))
+    _run_to_claimable(ops, rng.range(8, 14))
+    ops.append("evhold %d on" % crash)
+    ops.append("claim %d 0" % peer)
+    ops += ["dany 0"] * rng.range(5, 8)
+    # traffic behind the held update
+    for _ in range(rng.range(0, 2)):
+        a, b = (peer, crash) if rng.chance(2, 3) else (crash, peer)
+        ops.append("send %d %d %d" % (a, b, rng.choice([1000000, 2000000])))
+        ops += [rng.choice(["deliver %d %d" % (a, b), "dany 0"]) for _ in range(rng.range(1, 4))]
+    if rng.chance(1, 3):
+        ops.append("pmode %d async" % crash)
+    ops.append(rng.choice(["evhold %d off" % crash, "events %d" % crash]))
+    for _ in range(rng.range(1, 6)):
+        ops.append(rng.choice(["dany 0", "dany 0", "cany 0", "dany 1", "fwdany 0"]))
+    return ops
+
+
 def probe_line(mode, ops, crash):
     return "%s crash=%d k=%d lag=0 mon=max pre=0 recrash=0 probe=1 ; %s" % (mode, crash, len(ops), " ; ".join(ops))
 
@@ -234,7 +268,7 @@ def judge(r):
     V = []
     st = {"handler_failures": 0, "recrash_stale_manager": 0, "scripted_fc": 0, "path_legacy": 0, "path_recon": 0, "path_default": 0,
           "stale_channels": 0, "resumed_channels": 0, "replayed_updates": 0, "closed_onchain": 0, "payments": 0,
-          "payments_terminal": 0, "exempt_payments": 0, "redelivery_checked": 0, "recrash": 0, "lagged": 0, "inflight_at_crash": 0, "refused_checked": 0}
+          "payments_terminal": 0, "exempt_payments": 0, "redelivery_checked": 0, "recrash": 0, "lagged": 0, "inflight_at_crash": 0, "refused_checked": 0, "progress_probes": 0, "blocked_at_snapshot": 0, "blocked_landed": 0}
 
     def bad(j, what, key=None):
         V.append({"judge": j, "what": what, "key": key})
@@ -245,6 +279,14 @@ def judge(r):
     # "resolution pending in the holding cell" filter that inbound_forwarded_htlcs() has.
     f6 = r.get("path") == "recon" and any(s.get("mgr_holding_cell", 0) > 0 and s["mgr_latest"] >= s["mon"] for s in r.get("snap", []))
     f6key = "F6-recon-path-reforwards-htlc-with-resolution-in-holding-cell" if f6 else None
+    # Known finding F7: the manager was written while monitor updates were held back in a channel
+    # (blocked_monitor_updates non-empty, MONITOR_UPDATE_IN_PROGRESS set, nothing in flight); the held updates were then
+    # released and ALL reached the monitor, nothing newer did; the node stopped before the next manager write. On reload
+    # on_startup_drop_completed_blocked_mon_updates_through drops them, nothing is in flight, so no MonitorUpdatesComplete
+    # is generated and nothing ever calls monitor_updating_restored: the channel stays frozen.
+    f7_chans = set(s["chan"] for s in r.get("snap", []) if s.get("mgr_blocked") and s["mgr_latest"] >= s["mon"] >= max(s["mgr_blocked"])
+                   and not any(i > s["mon"] for i in s["mgr_inflight"]))
+    f7key = "F7-channel-stays-frozen-after-held-updates-landed-behind-the-managers-back" if f7_chans else None
     if r.get("panic"):
         bad("panic" if r.get("phase") not in ("reload", "recrash") else "read",
             "phase %s: %s" % (r.get("phase"), r["panic"][:400]),
@@ -277,6 +319,11 @@ def judge(r):
         disk = [d for d in r["disk"] if d["chan"] == chan][0]
         if disk["handed"] > disk["completed"]:
             st["inflight_at_crash"] += 1
+        if s["mgr_blocked"]:
+            # manager written while updates were held back in the channel; "landed" = the monitor already has some of them
+            st["blocked_at_snapshot"] += 1
+            if s["mon"] >= min(s["mgr_blocked"]):
+                st["blocked_landed"] += 1
         stale = s["mgr_latest"] < s["mon"]
         if stale:
             st["stale_channels"] += 1
@@ -365,6 +412,7 @@ def judge(r):
             f3key = "F5-stale-manager-fails-holding-cell-htlc-the-monitor-knows-as-committed"
         if f3key is None and f6 and (x == 1 and p["from"] != 1 and p["to"] != 1):
             f3key = f6key
+        f7pay = f7key if (f7key and (p["from"] == x or p["to"] == x or x == 1)) else None
         if sent and failed:
             bad("payment", "payment %s got both PaymentSent and PaymentFailed%s" % (tag, " (PaymentSent before the crash, PaymentFailed after restarting from a manager snapshot older than the fulfil)" if f3 else ""), key=f3key)
         if sent and tag not in r["claim_ops"]:
@@ -384,7 +432,7 @@ def judge(r):
         bad("payment", "payment %s (%d->%d, sent at step %d) reached no terminal event after the restart (crash node %d, k=%d lag=%d)%s" % (
             tag, p["from"], p["to"], p["sent_step"], x, r["k"], r["lag"],
             " [channel(s) %s were force-closed before the crash from a monitor state that never became durable]" % sorted(f4_chans) if f4_chans else ""),
-            key=f4key)
+            key=f4key or f7pay)
     # ---- events pending in the snapshot are delivered again
     if r.get("expect_events"):
         got = [(e[1], e[2]) for e in r["events_after"] if e[0] == x]
@@ -405,11 +453,23 @@ def judge(r):
         st["refused_checked"] += 1
         if (ref[1], ref[2]) not in after_x:
             bad("events", "event %s %s was refused by the event handler (Err(ReplayEvent)) during recovery and never delivered again" % (ref[1], ref[2]))
+    # ---- progress: after recovery every channel of the restarted node that is still usable carries a fresh payment in
+    # each direction (a channel left frozen for ever would keep them in its holding cell)
+    for pr in r.get("probes", []):
+        st["progress_probes"] += 1
+        if pr["completed_by"] != "alone":
+            fv = [v for v in r.get("final_view", []) if v["chan"] == pr["chan"]]
+            how = {"never": "never completed, not even after timer ticks, a reconnection and a payment from the peer",
+                   "tick": "completed only after timer ticks", "reconnect": "completed only after a disconnection and reconnection",
+                   "peer_traffic": "stayed in the holding cell through timer ticks and a reconnection and moved only when the PEER sent an HTLC of its own"}[pr["completed_by"]]
+            bad("progress", "after the recovery a fresh payment %d->%d over the usable chan %s %s (restarted node %d; MONITOR_UPDATE_IN_PROGRESS after the attempt: %s; view at the end: %s)" % (
+                pr["from"], pr["to"], pr["chan"], how, x, pr.get("mip_after_alone"), fv),
+                key=f4key or (f7key if pr["chan"] in f7_chans else None))
     # ---- after everything: nothing stuck when no channel had to go on chain
     for c in r["final_chans"]:
         if c["in"] or c["out"]:
             bad("stuck", "node %d chan %s still has %d/%d HTLCs pending after recovery (and on-chain resolution of closed channels)" % (c["n"], c["chan"], c["in"], c["out"]),
-                key=f4key)
+                key=f4key or (f7key if (c["chan"] in f7_chans or x == 1) else None))
     if not closed_any:
         # errors sent before the crash belong to the scenario (a scripted force-close whose own close did not survive)
         new_errs = r["errs"][len(r.get("prefix_errs", [])):]
